@@ -92,13 +92,15 @@ func c19Direct(c *RunCtx) {
 			go func(wk int, wr *Rng) {
 				defer wg.Done()
 				for k := 0; k < perWorker; k++ {
-					var inAdd atomic.Bool
-					inAdd.Store(true)
+					// inline = the callback ran on the goroutine that called Add
+					// (a queued callback is started on a goroutine of its own,
+					// possibly before Add has returned)
+					me := goid()
 					var ranInline atomic.Bool
 					delay := time.Duration(wr.Intn(200)) * time.Microsecond
 					call := clock.Add(1)
 					t.Add(func() {
-						if inAdd.Load() {
+						if goid() == me {
 							ranInline.Store(true)
 						}
 						a := active.Add(1)
@@ -124,7 +126,6 @@ func c19Direct(c *RunCtx) {
 							doneCh <- struct{}{}
 						}()
 					})
-					inAdd.Store(false)
 					ret := clock.Add(1)
 					record(porcupine.Operation{ClientId: wk, Input: thrIn{"add"}, Call: call, Output: thrOut{Inline: ranInline.Load()}, Return: ret})
 				}
@@ -498,4 +499,19 @@ func c19Case(c *RunCtx, kind string, limit, fan int, order string, conns int, se
 		}
 	}
 	g.Bus.OnRequest = nil
+}
+
+// goid returns the current goroutine's id (parsed from the stack header).
+func goid() uint64 {
+	var buf [64]byte
+	n := runtime.Stack(buf[:], false)
+	// "goroutine 123 [running]:"
+	var id uint64
+	for _, c := range buf[len("goroutine "):n] {
+		if c < '0' || c > '9' {
+			break
+		}
+		id = id*10 + uint64(c-'0')
+	}
+	return id
 }
